@@ -1,38 +1,33 @@
 (* C02 — A request field bound to a path variable or a query parameter arrives at the handler with the
-   URL's value whenever the body does not itself mention that field, for every verb; a URL value that
+   URL's value whenever the body does not itself mention that field (and, since the body is now bound
+   before the URL values, also when it does), for every verb; a URL value that
    cannot be converted, or a missing required query parameter, yields HTTP 400 naming that field and the
    handler is not invoked.
    Only statements, [exact <lemma>], Print Assumptions, and examples checked by computation. *)
 From Sebuf Require Import Text Json Route Schema Value Num Url GoRt GoRtRaw.
 From SebufProofs Require Import GoRtFacts GoRtRawFacts.
 
-(* ---- 1. the URL's values reach the handler ------------------------------------------------------------ *)
+(* ---- 1. the URL's values reach the handler, whatever the body says ------------------------------------ *)
 
-(* [body_silent body k]: there is no body, or the body does not mention key k *)
-Theorem C02_url_wins : forall rs rq n saw c p r b m1 m2,
+(* [raw_start r rq]: the decoded body of a POST/PUT/PATCH (the empty message when there is none or the
+   verb carries none).  What the handler sees is that message with the path values, then the query
+   values, bound on top of it. *)
+Theorem C02_url_wins : forall rs rq n saw c p r b,
   raw_handle rs rq = Ok (RDispatched n saw) ->
-  defects_C02 rs rq = [] ->
   rq_path rq = c :: p ->
   find_route rs (rq_verb rq) (split_on slash p) = Some (r, b) ->
-  bind_path (sr_fields r) (rt_pathvars (sr_route r)) b [] = inl m1 ->
-  bind_query_raw (sr_fields r) (query_fields (sr_fields r)) (parse_query (rq_query rq)) m1 = inl m2 ->
   n = md_name (sr_md r) /\
-  (rq_body rq = None -> saw = m2) /\
-  forall k x, mget m2 k = Some x -> body_silent (rq_body rq) k -> mget saw k = Some x.
+  exists m0 m1,
+    raw_start r rq = inl m0 /\
+    bind_path (sr_fields r) (rt_pathvars (sr_route r)) b m0 = inl m1 /\
+    bind_query_raw (sr_fields r) (query_fields (sr_fields r)) (parse_query (rq_query rq)) m1 = inl saw.
 Proof. exact url_wins. Qed.
 Print Assumptions C02_url_wins.
 
-(* also on keys the URL leaves unpopulated (zero values) *)
-Theorem C02_url_wins_all : forall rs rq n saw c p r b m1 m2,
-  raw_handle rs rq = Ok (RDispatched n saw) ->
-  defects_C02 rs rq = [] ->
-  rq_path rq = c :: p ->
-  find_route rs (rq_verb rq) (split_on slash p) = Some (r, b) ->
-  bind_path (sr_fields r) (rt_pathvars (sr_route r)) b [] = inl m1 ->
-  bind_query_raw (sr_fields r) (query_fields (sr_fields r)) (parse_query (rq_query rq)) m1 = inl m2 ->
-  forall k, body_silent (rq_body rq) k -> mget saw k = mget m2 k.
-Proof. exact url_wins_all. Qed.
-Print Assumptions C02_url_wins_all.
+Theorem C02_start_is_body : forall r rq m0, raw_start r rq = inl m0 ->
+  m0 = (if rt_body (sr_route r) then match rq_body rq with Some (_, v) => v | None => [] end else []).
+Proof. exact raw_start_inl. Qed.
+Print Assumptions C02_start_is_body.
 
 (* ---- 2. what the URL binds ------------------------------------------------------------------------------ *)
 
@@ -77,51 +72,53 @@ Theorem C02_query_values : forall fs q qfs m m2,
 Proof. exact bind_query_raw_vals. Qed.
 Print Assumptions C02_query_values.
 
-(* end to end: what the handler sees *)
-Theorem C02_handler_sees_path_value : forall rs rq n saw c p r b m1 m2 v f,
+(* end to end: what the handler sees, with no premise on the body *)
+Theorem C02_handler_sees_path_value : forall rs rq n saw c p r b v f,
   raw_handle rs rq = Ok (RDispatched n saw) ->
-  defects_C02 rs rq = [] ->
   rq_path rq = c :: p ->
   find_route rs (rq_verb rq) (split_on slash p) = Some (r, b) ->
-  bind_path (sr_fields r) (rt_pathvars (sr_route r)) b [] = inl m1 ->
-  bind_query_raw (sr_fields r) (query_fields (sr_fields r)) (parse_query (rq_query rq)) m1 = inl m2 ->
   NoDup (map f_name (query_fields (sr_fields r))) ->
   In v (rt_pathvars (sr_route r)) -> find_field (sr_fields r) v = Some f ->
   ~ In v (map f_name (query_fields (sr_fields r))) ->
-  body_silent (rq_body rq) v ->
   exists x, convert (f_kind f) (binding_of b v) = Some x /\ scalar_of saw f = x.
 Proof. exact handler_sees_path_value. Qed.
 Print Assumptions C02_handler_sees_path_value.
 
-Theorem C02_handler_sees_query_value : forall rs rq n saw c p r b m1 m2 f x xs,
+Theorem C02_handler_sees_query_value : forall rs rq n saw c p r b f x xs,
   raw_handle rs rq = Ok (RDispatched n saw) ->
-  defects_C02 rs rq = [] ->
   rq_path rq = c :: p ->
   find_route rs (rq_verb rq) (split_on slash p) = Some (r, b) ->
-  bind_path (sr_fields r) (rt_pathvars (sr_route r)) b [] = inl m1 ->
-  bind_query_raw (sr_fields r) (query_fields (sr_fields r)) (parse_query (rq_query rq)) m1 = inl m2 ->
   NoDup (map f_name (query_fields (sr_fields r))) ->
   In f (query_fields (sr_fields r)) -> is_repeated f = false ->
   query_values (parse_query (rq_query rq)) (qname f) = x :: xs ->
-  body_silent (rq_body rq) (f_name f) ->
   exists y, convert (f_kind f) x = Some y /\ scalar_of saw f = y.
 Proof. exact handler_sees_query_value. Qed.
 Print Assumptions C02_handler_sees_query_value.
 
-Theorem C02_handler_sees_query_list : forall rs rq n saw c p r b m1 m2 f x xs,
+Theorem C02_handler_sees_query_list : forall rs rq n saw c p r b f x xs,
   raw_handle rs rq = Ok (RDispatched n saw) ->
-  defects_C02 rs rq = [] ->
   rq_path rq = c :: p ->
   find_route rs (rq_verb rq) (split_on slash p) = Some (r, b) ->
-  bind_path (sr_fields r) (rt_pathvars (sr_route r)) b [] = inl m1 ->
-  bind_query_raw (sr_fields r) (query_fields (sr_fields r)) (parse_query (rq_query rq)) m1 = inl m2 ->
   NoDup (map f_name (query_fields (sr_fields r))) ->
   In f (query_fields (sr_fields r)) -> is_repeated f = true ->
   query_values (parse_query (rq_query rq)) (qname f) = x :: xs ->
-  body_silent (rq_body rq) (f_name f) ->
   exists l, convert_all (f_kind f) (x :: xs) = Some l /\ mget saw (f_name f) = Some (FL l).
 Proof. exact handler_sees_query_list. Qed.
 Print Assumptions C02_handler_sees_query_list.
+
+(* what the URL does not bind comes from the body *)
+Theorem C02_handler_sees_body_elsewhere : forall rs rq n saw c p r b,
+  raw_handle rs rq = Ok (RDispatched n saw) ->
+  rq_path rq = c :: p ->
+  find_route rs (rq_verb rq) (split_on slash p) = Some (r, b) ->
+  NoDup (map f_name (query_fields (sr_fields r))) ->
+  exists m0, raw_start r rq = inl m0 /\
+    (forall k, ~ In k (rt_pathvars (sr_route r)) -> ~ In k (map f_name (query_fields (sr_fields r))) ->
+       mget saw k = mget m0 k) /\
+    (forall f, In f (query_fields (sr_fields r)) -> ~ In (f_name f) (rt_pathvars (sr_route r)) ->
+       query_values (parse_query (rq_query rq)) (qname f) = [] -> mget saw (f_name f) = mget m0 (f_name f)).
+Proof. exact handler_sees_body_elsewhere. Qed.
+Print Assumptions C02_handler_sees_body_elsewhere.
 
 (* ---- 3. rejection ------------------------------------------------------------------------------------------ *)
 
@@ -140,18 +137,26 @@ Proof. exact bind_query_raw_reject. Qed.
 Print Assumptions C02_reject_query_reason.
 
 (* in both cases the answer is 400 naming the field; the handler is not invoked *)
-Theorem C02_reject_path : forall rs rq p r b f, routed rs rq p r b ->
-  bind_path (sr_fields r) (rt_pathvars (sr_route r)) b [] = inr f ->
+Theorem C02_reject_path : forall rs rq p r b m0 f, routed rs rq p r b ->
+  raw_start r rq = inl m0 ->
+  bind_path (sr_fields r) (rt_pathvars (sr_route r)) b m0 = inr f ->
   raw_handle rs rq = Ok (RRejected f).
 Proof. exact raw_handle_reject_path. Qed.
 Print Assumptions C02_reject_path.
 
-Theorem C02_reject_query : forall rs rq p r b m1 f, routed rs rq p r b ->
-  bind_path (sr_fields r) (rt_pathvars (sr_route r)) b [] = inl m1 ->
+Theorem C02_reject_query : forall rs rq p r b m0 m1 f, routed rs rq p r b ->
+  raw_start r rq = inl m0 ->
+  bind_path (sr_fields r) (rt_pathvars (sr_route r)) b m0 = inl m1 ->
   bind_query_raw (sr_fields r) (query_fields (sr_fields r)) (parse_query (rq_query rq)) m1 = inr f ->
   raw_handle rs rq = Ok (RRejected f).
 Proof. exact raw_handle_reject_query. Qed.
 Print Assumptions C02_reject_query.
+
+(* a body the server cannot read is reported before any URL violation, as field "body" *)
+Theorem C02_reject_body : forall rs rq p r b f, routed rs rq p r b ->
+  raw_start r rq = inr f -> raw_handle rs rq = Ok (RRejected f) /\ f = s "body".
+Proof. exact raw_handle_reject_body. Qed.
+Print Assumptions C02_reject_body.
 
 (* conversely: when every path variable converts and every query field is absent-and-optional or
    converts, the request is dispatched, or rejected for its body *)
@@ -162,15 +167,16 @@ Theorem C02_url_ok_dispatches : forall rs rq p r b, routed rs rq p r b ->
 Proof. exact raw_handle_url_ok. Qed.
 Print Assumptions C02_url_ok_dispatches.
 
-(* every rejection has one of the three reasons *)
+(* every rejection has one of the three reasons; the body is judged first *)
 Theorem C02_rejected_inv : forall rs rq n, raw_handle rs rq = Ok (RRejected n) ->
   exists p r b, routed rs rq p r b /\
-    ((In n (rt_pathvars (sr_route r)) /\ exists f, find_field (sr_fields r) n = Some f /\
-        (binding_of b n = [] \/ convert (f_kind f) (binding_of b n) = None)) \/
-     (exists f, In f (query_fields (sr_fields r)) /\ f_name f = n /\
-        query_fails (parse_query (rq_query rq)) f) \/
-     (n = s "body" /\ rt_body (sr_route r) = true /\
-      exists f v, rq_body rq = Some (f, v) /\ bfmt_eqb f (server_fmt (rq_ct rq)) = false)).
+    ((n = s "body" /\ rt_body (sr_route r) = true /\
+      exists f v, rq_body rq = Some (f, v) /\ bfmt_eqb f (server_fmt (rq_ct rq)) = false) \/
+     (exists m0, raw_start r rq = inl m0 /\
+        ((In n (rt_pathvars (sr_route r)) /\ exists f, find_field (sr_fields r) n = Some f /\
+            (binding_of b n = [] \/ convert (f_kind f) (binding_of b n) = None)) \/
+         (exists f, In f (query_fields (sr_fields r)) /\ f_name f = n /\
+            query_fails (parse_query (rq_query rq)) f)))).
 Proof. exact raw_handle_rejected_inv. Qed.
 Print Assumptions C02_rejected_inv.
 
@@ -272,28 +278,50 @@ Definition rs1 : list sroute := [put_route; get_route].
 Example C02_routes_are_the_generated_ones : server_routes [fl1] fl1 sv1 = Ok (Some rs1).
 Proof. vm_compute. reflexivity. Qed.
 
-(* refutation: PUT /items/xyz?page=9 with body {} — the URL binds id and page, the handler sees neither *)
+(* PUT /items/xyz?page=9 with body {} (repaired): the body is bound first, the URL values on top *)
 Definition rq_put : raw_req :=
   {| rq_verb := PUT; rq_path := s "/items/xyz"; rq_query := s "page=9"; rq_ct := CtJSON;
      rq_body := Some (BJson, []) |}.
 Definition put_m1 : mval := [(s "id", FS (VStr (s "xyz")))].
 Definition put_m2 : mval := [(s "id", FS (VStr (s "xyz"))); (s "page", FS (VInt 9))].
 
-Example C02_refuted_body_resets_url_fields :
-  defects_C02 rs1 rq_put = [C02BodyResetsUrlFields] /\
+Example C02_body_does_not_reset_url_fields :
+  defects_C02 rs1 rq_put = [] /\
   find_route rs1 PUT (split_on slash (s "items/xyz")) = Some (put_route, [(s "id", s "xyz")]) /\
+  raw_start put_route rq_put = inl [] /\
   bind_path (sr_fields put_route) (rt_pathvars (sr_route put_route)) [(s "id", s "xyz")] [] = inl put_m1 /\
   bind_query_raw (sr_fields put_route) (query_fields (sr_fields put_route))
      (parse_query (rq_query rq_put)) put_m1 = inl put_m2 /\
-  raw_handle rs1 rq_put = Ok (RDispatched (s "PutItem") []).
+  raw_handle rs1 rq_put = Ok (RDispatched (s "PutItem") put_m2).
 Proof. vm_compute. repeat split; reflexivity. Qed.
 
-(* the same request without a body: the handler sees the URL's values *)
+(* a body that mentions the URL-bound fields with other values, and a body-only field: the URL wins on
+   id and page, note comes from the body *)
+Definition rq_put_conflict : raw_req :=
+  {| rq_verb := PUT; rq_path := s "/items/xyz"; rq_query := s "page=9"; rq_ct := CtJSON;
+     rq_body := Some (BJson, [(s "id", FS (VStr (s "other"))); (s "page", FS (VInt 1));
+                              (s "note", FS (VStr (s "n")))]) |}.
+Example C02_url_overrides_body :
+  raw_handle rs1 rq_put_conflict
+    = Ok (RDispatched (s "PutItem")
+            [(s "id", FS (VStr (s "xyz"))); (s "page", FS (VInt 9)); (s "note", FS (VStr (s "n")))]).
+Proof. vm_compute. reflexivity. Qed.
+
+(* a body in a format the server does not read for that content type is reported first, even when the
+   URL is bad too *)
+Definition rq_put_badbody : raw_req :=
+  {| rq_verb := PUT; rq_path := s "/items/xyz"; rq_query := s "page=abc"; rq_ct := CtJSON;
+     rq_body := Some (BBin, [(s "note", FS (VStr (s "n")))]) |}.
+Example C02_body_rejected_first :
+  raw_handle rs1 rq_put_badbody = Ok (RRejected (s "body")).
+Proof. vm_compute. reflexivity. Qed.
+
+(* the same request without a body *)
 Definition rq_put_nobody : raw_req :=
   {| rq_verb := PUT; rq_path := s "/items/xyz"; rq_query := s "page=9"; rq_ct := CtJSON; rq_body := None |}.
 Example C02_put_without_body :
-  defects_C02 rs1 rq_put_nobody = [] /\ raw_handle rs1 rq_put_nobody = Ok (RDispatched (s "PutItem") put_m2).
-Proof. vm_compute. split; reflexivity. Qed.
+  raw_handle rs1 rq_put_nobody = Ok (RDispatched (s "PutItem") put_m2).
+Proof. vm_compute. reflexivity. Qed.
 
 (* non-vacuity of C02_url_wins: GET with an escaped path value, a repeated parameter given twice, and the
    required parameter present *)
@@ -308,13 +336,12 @@ Definition get_m2 : mval :=
 
 Example C02_url_wins_nonvacuous :
   raw_handle rs1 rq_get = Ok (RDispatched (s "GetItem") get_m2) /\
-  defects_C02 rs1 rq_get = [] /\
   rq_path rq_get = slash :: s "items/a%2Fb" /\
   find_route rs1 (rq_verb rq_get) (split_on slash (s "items/a%2Fb")) = Some (get_route, get_b) /\
+  raw_start get_route rq_get = inl [] /\
   bind_path (sr_fields get_route) (rt_pathvars (sr_route get_route)) get_b [] = inl get_m1 /\
   bind_query_raw (sr_fields get_route) (query_fields (sr_fields get_route))
-     (parse_query (rq_query rq_get)) get_m1 = inl get_m2 /\
-  body_silent (rq_body rq_get) (s "tags").
+     (parse_query (rq_query rq_get)) get_m1 = inl get_m2.
 Proof. vm_compute. repeat split; reflexivity. Qed.
 
 (* rejections: a value that does not convert, and a missing required parameter *)
